@@ -14,7 +14,7 @@ import itertools
 
 import numpy as np
 
-from mc.lib import Acc, tree_hash, maxabs
+from mc.lib import Acc, tree_hash, maxabs, on_path
 
 SHAPES = {"v": [5], "c": [6, 7], "s": [2, 2]}
 EVENTS = ["gA", "gB", "gSeed", "g0"]
@@ -135,6 +135,8 @@ def run_ds(task, acc):
     for s, accs, hist in frontier:
       t = len(hist)
       for ev in EVENTS:
+        if not on_path(task, hist + (ev,)):
+          continue
         u, s2 = runner.step(s, alpha[ev])
         u = runner.host(u)
         acc.transitions += 1
@@ -269,6 +271,8 @@ def run_tf(task, acc):
     for s, accs, ast, hist in frontier:
       t = len(hist)
       for ev in EVENTS:
+        if not on_path(task, hist + (ev,)):
+          continue
         g = {k: jnp.asarray(v) for k, v in alpha[ev].items()}
         u, s2 = upd(g, s, params)
         base, _ = so_upd(g, s[0].direction, params)
